@@ -116,6 +116,8 @@ pub struct State {
     pub removal_snaps: Vec<(u64, String, Image)>,
     /// also snapshot after every write to a manifest and after every rename
     pub snap_meta: bool,
+    /// snapshot after every write to any file
+    pub snap_all: bool,
 }
 
 #[derive(Clone)]
@@ -442,7 +444,7 @@ impl Handle {
                 offset: off as u64,
                 data: buf.to_vec(),
             });
-            if st.snap_meta && self.path.extension().map(|e| e == "manifest").unwrap_or(false) {
+            if st.snap_all || (st.snap_meta && self.path.extension().map(|e| e == "manifest").unwrap_or(false)) {
                 let name = self.path.file_name().map(|s| s.to_string_lossy().to_string()).unwrap_or_default();
                 st.snapshot(format!("a write of {} bytes to {}", buf.len(), name));
             }
@@ -599,7 +601,7 @@ impl FileSystem for VerifFs {
                     from: from.to_path_buf(),
                     to: to.to_path_buf(),
                 });
-                if st.snap_meta {
+                if st.snap_meta || st.snap_all {
                     let name = to.file_name().map(|s| s.to_string_lossy().to_string()).unwrap_or_default();
                     st.snapshot(format!("the rename to {}", name));
                 }
